@@ -77,6 +77,35 @@ func init() {
 			}
 			gotCycle := len(t.parts) > 1 && t.parts[0] == "i1" && t.parts[1] == "i11"
 			gotOK := len(t.parts) > 0 && t.parts[0] == "i0"
+			// where the cycle is reported: the first $INCLUDE, in document order of the traversal, that names a
+			// file on the current include path - file and line of that directive
+			if cyclic && gotCycle && len(t.parts) >= 4 {
+				var walk func(f int, path map[int]bool) (int, int, bool)
+				walk = func(f int, path map[int]bool) (int, int, bool) {
+					line := 1
+					for j := 0; j < nf; j++ {
+						if g&(1<<uint(f*nf+j)) == 0 {
+							continue
+						}
+						line++
+						if path[j] {
+							return f, line, true
+						}
+						path[j] = true
+						ef, el, found := walk(j, path)
+						delete(path, j)
+						if found {
+							return ef, el, true
+						}
+					}
+					return 0, 0, false
+				}
+				ef, el, _ := walk(0, map[int]bool{0: true})
+				want := fmt.Sprintf("b%x i%x", []byte(fmt.Sprintf("f%d", ef)), el)
+				if got := t.parts[2] + " " + t.parts[3]; got != want {
+					c.Fail("spec", "Parse", "graph-oracle-position", dc.rootText+fmt.Sprintf(" (graph %d on %d files)", g, nf), got, want, "the cycle is reported at the file and line of the $INCLUDE that closes it")
+				}
+			}
 			if cyclic && !gotCycle {
 				c.Fail("spec", "Parse", "graph-oracle", dc.rootText+fmt.Sprintf(" (graph %d on %d files)", g, nf), t.String(), "RecursiveIncludeError", "an include cycle reachable from the root is reported")
 			}
